@@ -122,6 +122,12 @@ def build(spec: dict) -> bytes:
                 entries.append({"name": m["name"], "data": b"", "ghost": True})
             elif kind == "file":
                 entries.append({"name": m["name"], "data": member_bytes(m), "attr": m.get("attr", 0x20), "method": m.get("method")})
+        if not entries and o.get("empty_standard"):
+            # what 7-Zip itself writes for an archive without entries: the 32-byte signature header alone, next header of size 0
+            import struct
+            import zlib
+            tail = struct.pack("<QQI", 0, 0, 0)
+            return b"7z\xbc\xaf\x27\x1c" + bytes([0, 4]) + struct.pack("<I", zlib.crc32(tail) & 0xFFFFFFFF) + tail
         # ghosts must follow every real stream-bearing file
         real = [e for e in entries if not e.get("ghost")]
         ghosts = [e for e in entries if e.get("ghost")]
